@@ -44,6 +44,24 @@ const vfC15SigStalePrev = "stale-previous-version-blocks-released-collections"
 // other database can take _default._default until somebody touches the half-deleted name again.
 const vfC15SigDeleteMarker = "interrupted-delete-marker-claims-default-collection"
 
+// Residue of the above after its repair (073ec13 skips entries whose current or previous version is the
+// 0-0 marker): the marker entry's own previous_version (the deleted version, recorded without scopes)
+// is still read by getPreviousConflicts as "the default collection", so the same requests are now
+// refused with 409 'update in progress'.
+const vfC15SigDeleteMarkerPrev = "delete-marker-previous-version-claims-default-collection"
+
+// vfC15OpenDeleteMarkerSig returns the listed-open signature that covers a request for the default
+// collection blocked by the entry of an interrupted delete, or "".
+func vfC15OpenDeleteMarkerSig() string {
+	if kit.Known("C15", vfC15SigDeleteMarker) {
+		return vfC15SigDeleteMarker
+	}
+	if kit.Known("C15", vfC15SigDeleteMarkerPrev) {
+		return vfC15SigDeleteMarkerPrev
+	}
+	return ""
+}
+
 var vfC15BucketSeq atomic.Int64
 
 // ---------------------------------------------------------------------------------------------
@@ -958,8 +976,8 @@ func (w *vfC15World) judge(n *vfC15Node, op vfC15Op, pre vfC15Pre, res vfC15Resu
 					w.excluded[vfC15SigStalePrev]++
 					break
 				}
-				if w.deleteMarkerBlock(before, op) && kit.Known("C15", vfC15SigDeleteMarker) {
-					w.excluded[vfC15SigDeleteMarker]++
+				if sig := vfC15OpenDeleteMarkerSig(); sig != "" && w.deleteMarkerBlock(before, op) {
+					w.excluded[sig]++
 					break
 				}
 				w.violation("%s is valid (%s) but was rejected after an interrupted change: %v [mutating calls: %s]", op, w.describeModel(), res.err, strings.Join(n.conn.trace, ", "))
